@@ -91,6 +91,26 @@ PROPS["C10"] = dict(
               "simulator-chosen starting offsets for the ephemeral search",
 )
 
+PROPS["C08"] = dict(
+    engine="primsim", level="exploration",
+    quick=dict(runs=64000, workers=16),
+    thorough=dict(budget_s=600, workers=16),
+    rule="one evaluation = one seeded schedule of 1-4 tasks calling fragmentation.Process concurrently with the 8-byte-aligned fragments of 1-3 datagrams "
+         "(position-keyed content; random cuts, a second overlapping cut, duplicates, withheld fragments, random arrival order), in one or two phases separated "
+         "by a fake-clock jump of 29-300 s, sometimes with tiny memory limits; schedule points between the two locked sections of Process; non-trivial = at "
+         "least 3 fragments injected and at least one datagram handed up; distinct = distinct hash of schedule and delivery history",
+    expected_probes=["delivered", "clock_jump", "memory_pressure", "delivered_twice_from_duplicates"],
+    real=["protocol/network/fragmentation (fragmentation.go, reassembler.go, frag_heap.go, reassembler_list.go)", "pkg/buffer (VectorisedView clone/trim)"],
+    stubs=PRIM_STUBS + ["wall clock: testing/synctest fake clock (reassembly timeout)"],
+    assumptions=PRIM_ASSUME + ["this part drives the exported Process API with 32-bit keys chosen by the harness; the key derivation from IPv4 headers and the "
+                               "path from the wire are covered by the netsim part when built"],
+    hang_is_violation=True,
+    level_text="seeded exploration of concurrent and sequential fragment arrival histories against a byte-exact reference: whatever is handed up equals one "
+               "original datagram, only when the fragments received since its last delivery and within the timeout cover it including the last fragment; a "
+               "complete set received within one instant and within the memory limits is handed up; evidence, not proof",
+    level_note="fragments with offset+length beyond 65535 or with contradictory last-fragment flags are malformed input and belong to C07",
+)
+
 PENDING = "check not built yet (work in progress; will be claimed once its simulation exists)"
 NOT_APPLICABLE = {
     "C15": "pure functions of their input (header codecs, RFC 1071 checksum): no schedule, clock, fault, I/O or second party for a simulator to control; "
